@@ -933,7 +933,15 @@ class _FieldView:
     def __init__(self, vector: Vector, field_name: str) -> None:
         self.vector = vector
         self.field_name = field_name
-        self.field_index = vector._fields.index(field_name)
+        vector._fields.index(field_name)  # the field must exist when the view is made
+
+    @property
+    def field_index(self) -> int:
+        # Looked up on every use: remove_fields may have moved the column since the view was made
+        try:
+            return self.vector._fields.index(self.field_name)
+        except ValueError:
+            raise KeyError(f"Field '{self.field_name}' not found.") from None
 
     def _apply_op(self, op: Any) -> None:
         def apply(arr: Any) -> None:
